@@ -50,6 +50,10 @@ def main():
                 from .observe import FsFaults
 
                 FsFaults(em, obs, **cfg["fs_faults"]).install()
+            if cfg.get("line_signals"):
+                from .observe import LineSignals
+
+                LineSignals(em, obs, **cfg["line_signals"]).install()
             kwargs = dict(cfg.get("kwargs", {}))
             kwargs.setdefault("plot", False)
             kwargs.setdefault("log_on_iteration", False)
@@ -57,6 +61,7 @@ def main():
             em.emit("start", resume=bool(cfg.get("resume")), cfg={k: cfg[k] for k in ("model", "seed", "nlive")})
             fs = FlowSampler(model, output=cfg["output"], nlive=cfg["nlive"], seed=cfg["seed"],
                              resume=bool(cfg.get("resume")), signal_handling=bool(cfg.get("signal_handling", False)),
+                             **({"exit_code": cfg["exit_code"]} if cfg.get("exit_code") is not None else {}),
                              **kwargs)
             obs.ns = fs.ns
             if cfg.get("resume") and fs.ns.resumed:
